@@ -455,6 +455,214 @@ def inline_new_locals(fn, recorded_names):
     return k
 
 
+# ------------------------------------------------------------------ undo "extract function"
+_H = [0]
+
+
+def _simple_params(fn):
+    a = fn.args
+    if a.vararg or a.kwarg or a.posonlyargs or a.kwonlyargs:
+        return None
+    return [x.arg for x in a.args]
+
+
+def _bind(call, params, defaults, drop_first):
+    """param -> argument expression for a call, or None when it cannot be bound exactly."""
+    ps = params[1:] if drop_first else list(params)
+    if any(isinstance(x, ast.Starred) for x in call.args) or any(k.arg is None for k in call.keywords):
+        return None
+    if len(call.args) > len(ps):
+        return None
+    b = dict(zip(ps, call.args))
+    for k in call.keywords:
+        if k.arg not in ps or k.arg in b:
+            return None
+        b[k.arg] = k.value
+    for p_, d in defaults.items():
+        if p_ in ps and p_ not in b:
+            b[p_] = d
+    return b if set(b) == set(ps) else None
+
+
+def _helper_shape(fn):
+    """('expr', assigns, return_expr) | ('stmts', body, return_expr_or_None) | None for a helper that can be inlined:
+    no decorators other than staticmethod, no yield / nested defs / global, a single trailing return (or none)."""
+    if any(ast.unparse(d) not in ("staticmethod",) for d in fn.decorator_list):
+        return None
+    body = [b for b in fn.body if not (isinstance(b, ast.Expr) and isinstance(b.value, ast.Constant))]
+    if not body:
+        return None
+    for n in ast.walk(fn):
+        if n is not fn and isinstance(n, (ast.FunctionDef, ast.AsyncFunctionDef, ast.ClassDef, ast.Lambda, ast.Yield, ast.YieldFrom, ast.Await, ast.Global, ast.Nonlocal, ast.Try, ast.With)):
+            return None
+    rets = [n for n in ast.walk(fn) if isinstance(n, ast.Return)]
+    if len(rets) > 1 or (rets and rets[0] is not body[-1]):
+        return None
+    ret = rets[0].value if rets else None
+    stmts = body[:-1] if rets else body
+    if all(isinstance(b, ast.Assign) and len(b.targets) == 1 and isinstance(b.targets[0], ast.Name) for b in stmts) and ret is not None:
+        names = [b.targets[0].id for b in stmts]
+        if len(set(names)) == len(names):
+            return ("expr", stmts, ret)
+    return ("stmts", stmts, ret)
+
+
+def inline_new_helpers(project, rec):
+    """Calls, from recorded functions, of functions the record does not know (helpers extracted from them) are
+    replaced in memory by the helper's body with the arguments substituted - the inverse of `extract function`.
+    Expressions are taken to be side-effect free, as everywhere in this engine."""
+    import copy
+
+    new = {q: fi for q, fi in project.functions.items() if q not in rec and fi.kind != "nested"}
+    if not new:
+        return 0
+    shapes = {}
+    for q, fi in new.items():
+        ps = _simple_params(fi.node)
+        sh = _helper_shape(fi.node) if ps is not None else None
+        if sh is not None:
+            a = fi.node.args
+            defaults = dict(zip([x.arg for x in a.args][len(a.args) - len(a.defaults) :], a.defaults))
+            shapes[q] = (fi, ps, defaults, sh)
+    if not shapes:
+        return 0
+    count = 0
+
+    def resolve(call, caller):
+        f = call.func
+        if isinstance(f, ast.Name):
+            q = f"{caller.module.name}.{f.id}"
+            if q in shapes:
+                return shapes[q], False
+            tgt = caller.module.imports.get(f.id)
+            if tgt in shapes:
+                return shapes[tgt], False
+        if isinstance(f, ast.Attribute) and isinstance(f.value, ast.Name) and f.value.id in ("self", "cls") and caller.cls is not None:
+            m = project.lookup_method(caller.cls, f.attr)
+            if m is not None and m.qualname in shapes:
+                sh = shapes[m.qualname]
+                drop = not any(ast.unparse(d) == "staticmethod" for d in m.node.decorator_list)
+                return sh, drop
+        if isinstance(f, ast.Attribute) and isinstance(f.value, ast.Name) and caller.cls is not None and f.value.id == caller.cls.name:
+            m = project.lookup_method(caller.cls, f.attr)
+            if m is not None and m.qualname in shapes and any(ast.unparse(d) == "staticmethod" for d in m.node.decorator_list):
+                return shapes[m.qualname], False
+        return None, False
+
+    def subst(node, binding):
+        class S(ast.NodeTransformer):
+            def visit_Name(self, n):
+                return ast.copy_location(copy.deepcopy(binding[n.id]), n) if n.id in binding and isinstance(n.ctx, ast.Load) else n
+
+        return S().visit(copy.deepcopy(node))
+
+    for _pass in range(3):
+        changed = False
+        for q, caller in list(project.functions.items()):
+            if q in shapes and q not in rec:
+                pass  # helpers calling helpers are inlined too, so that chains collapse
+            fn = caller.node
+            used = {n.id for n in ast.walk(fn) if isinstance(n, ast.Name)} | _params(fn)
+            # (a) expression helpers, anywhere in an expression
+            class E(ast.NodeTransformer):
+                def visit_Call(self, c):
+                    self.generic_visit(c)
+                    got, drop = resolve(c, caller)
+                    if got is None:
+                        return c
+                    hfi, ps, defaults, sh = got
+                    if sh[0] != "expr" or hfi is caller:
+                        return c
+                    b = _bind(c, ps, defaults, drop)
+                    if b is None:
+                        return c
+                    env = dict(b)
+                    for st in sh[1]:
+                        env[st.targets[0].id] = subst(st.value, env)
+                    nonlocal_count[0] += 1
+                    return ast.copy_location(subst(sh[2], env), c)
+
+            nonlocal_count = [0]
+            for i, st in enumerate(list(fn.body)):
+                fn.body[i] = E().visit(st)
+            if nonlocal_count[0]:
+                count += nonlocal_count[0]
+                changed = True
+            # (b) statement helpers at statement level
+            for owner, blk in list(_blocks(fn)):
+                i = 0
+                while i < len(blk):
+                    st = blk[i]
+                    call = None
+                    form = None
+                    if isinstance(st, ast.Expr) and isinstance(st.value, ast.Call):
+                        call, form = st.value, "expr"
+                    elif isinstance(st, ast.Assign) and len(st.targets) == 1 and isinstance(st.value, ast.Call):
+                        call, form = st.value, "assign"
+                    elif isinstance(st, ast.Return) and isinstance(st.value, ast.Call):
+                        call, form = st.value, "return"
+                    if call is None:
+                        i += 1
+                        continue
+                    got, drop = resolve(call, caller)
+                    if got is None or got[3][0] != "stmts" or got[0] is caller:
+                        i += 1
+                        continue
+                    hfi, ps, defaults, sh = got
+                    b = _bind(call, ps, defaults, drop)
+                    if b is None or (form in ("assign", "return") and sh[2] is None and form == "assign"):
+                        i += 1
+                        continue
+                    _H[0] += 1
+                    pre = []
+                    ren = {}
+                    # parameters become aliases (inlined later when safe); helper locals keep their spelling unless taken
+                    for p_, a in b.items():
+                        if isinstance(a, (ast.Name, ast.Constant)) and not any(isinstance(x, ast.Name) and x.id == p_ and isinstance(x.ctx, (ast.Store, ast.Del)) for x in ast.walk(hfi.node)):
+                            ren[p_] = a
+                        else:
+                            nm = f"{p_}_h{_H[0]}"
+                            pre.append(ast.copy_location(ast.Assign(targets=[ast.Name(id=nm, ctx=ast.Store())], value=copy.deepcopy(a)), st))
+                            ren[p_] = ast.Name(id=nm, ctx=ast.Load())
+                    hl = {n.id for n in ast.walk(hfi.node) if isinstance(n, ast.Name) and isinstance(n.ctx, (ast.Store, ast.Del))} - set(ps)
+                    lren = {n: (f"{n}_h{_H[0]}" if n in used else n) for n in hl}
+
+                    class R(ast.NodeTransformer):
+                        def visit_Name(self, n):
+                            if n.id in ren and isinstance(n.ctx, ast.Load):
+                                return ast.copy_location(copy.deepcopy(ren[n.id]), n)
+                            if n.id in lren:
+                                return ast.copy_location(ast.Name(id=lren[n.id], ctx=n.ctx), n)
+                            return n
+
+                    body = [R().visit(copy.deepcopy(x)) for x in sh[1]]
+                    tail = []
+                    if sh[2] is not None:
+                        rv = R().visit(copy.deepcopy(sh[2]))
+                        if form == "assign":
+                            tail = [ast.copy_location(ast.Assign(targets=copy.deepcopy(st.targets), value=rv), st)]
+                        elif form == "return":
+                            tail = [ast.copy_location(ast.Return(value=rv), st)]
+                    elif form == "return":
+                        tail = [ast.copy_location(ast.Return(value=None), st)]
+                    newst = pre + body + tail
+                    for x in newst:
+                        ast.fix_missing_locations(x)
+                    blk[i : i + 1] = newst or [ast.copy_location(ast.Pass(), st)]
+                    used |= set(lren.values())
+                    count += 1
+                    changed = True
+                    i += len(newst) or 1
+            if hasattr(caller, "_cfg"):
+                try:
+                    del caller._cfg
+                except AttributeError:
+                    pass
+        if not changed:
+            break
+    return count
+
+
 def normalise(project, path=PINNED):
     """Alpha-normalise every function of ``project`` in place; returns statistics for the evidence."""
     stats = {"functions_recorded": 0, "functions_renamed": 0, "locals_renamed": 0, "comparisons_mirrored": 0, "locals_inlined": 0, "locals_reextracted": 0, "examples": []}
@@ -463,6 +671,10 @@ def normalise(project, path=PINNED):
     with open(path) as fh:
         rec = json.load(fh)
     stats["functions_recorded"] = len(rec)
+    try:
+        stats["helper_calls_inlined"] = inline_new_helpers(project, rec)
+    except RecursionError:  # pragma: no cover
+        stats["helper_calls_inlined"] = 0
     # innermost (longest qualified name) first so that a nested function is settled before its parent
     for q in sorted(project.functions, key=lambda s: -s.count(".")):
         fi = project.functions[q]
